@@ -486,8 +486,28 @@ func runHistory(ops []string) string {
 			} else {
 				d.DeleteEntity(db.NewEntity(idn.name, idn.pub, nil))
 			}
+		case p[0] == "WT":
+			ms, _ := strconv.Atoi(p[1])
+			time.Sleep(time.Duration(ms) * time.Millisecond)
+		case p[0] == "TA":
+			// what the mDNS responder holds for the service against what the transport computed
+			if w == nil {
+				emit("TA=stopped")
+				continue
+			}
+			emit(fmt.Sprintf("TA=sf%s/sf%s", w.t.VerifResponderTxt()["sf"], w.t.VerifTxtRecords()["sf"]))
 		case p[0] == "PS":
 			emit("PS=" + strings.TrimPrefix(live(p[1], "setup", ""), "S="))
+		case p[0] == "PSW":
+			// PSW:<ctrl>:<code>  pair-setup by a controller that enters <code> (eight digits), whatever the accessory's code is
+			if w == nil {
+				emit("PSW=stopped")
+				continue
+			}
+			keep := w.pin
+			w.pin = p[2]
+			emit("PSW=" + strings.TrimPrefix(live(p[1], "setup", ""), "S="))
+			w.pin = keep
 		case p[0] == "PSELF":
 			// a controller that pairs under the accessory's own device id
 			if w == nil {
